@@ -27,8 +27,8 @@ theorem getD_fillBytes (b : List Nat) (off n v j : Nat) (hj : j < b.length) :
 theorem fillBytes_zero_len (b : List Nat) (off v : Nat) : fillBytes b off 0 v = b := by
   apply List.ext_getElem (by simp)
   intro j h1 h2
-  simp [fillBytes, List.getD_eq_getElem?_getD]
-  intro h3 h4; omega
+  have : ¬ (off ≤ j ∧ j < off) := by omega
+  simp [fillBytes, List.getD_eq_getElem?_getD, this, h2]
 
 /-- two blocks `(off, len)` share no byte -/
 def disjoint (a b : Nat × Nat) : Prop := a.1 + a.2 ≤ b.1 ∨ b.1 + b.2 ≤ a.1
